@@ -200,7 +200,9 @@ func main() {
 		a, b, c := newMgr(1, dbs[0]), newMgr(1, dbs[1]), newMgr(1, dbs[2])
 		var snap []byte
 		res := "ok"
-		func() {
+		finished := make(chan struct{})
+		go func() {
+			defer close(finished)
 			defer func() {
 				if r := recover(); r != nil {
 					res = "panic"
@@ -231,6 +233,17 @@ func main() {
 				c.g.process(e)
 			}
 		}()
+		select {
+		case <-finished:
+		case <-time.After(20 * time.Second):
+			// the catalogue state machine does not return from applying an entry / restoring a snapshot (the
+			// zero group's apply loop would be stuck for good): report it and stop - its locks may be held
+			enc.Encode(map[string]interface{}{"ev": "cat", "hid": hid, "log": desc, "cut": cut, "snapat": snapAt,
+				"res": "hang: the catalogue state machine did not come back within 20 s", "a": []dsv{}, "b": []dsv{}, "c": []dsv{}})
+			bw.Flush()
+			f.Sync()
+			os.Exit(0)
+		}
 		time.Sleep(2 * time.Millisecond)
 		enc.Encode(map[string]interface{}{"ev": "cat", "hid": hid, "log": desc, "cut": cut, "snapat": snapAt, "res": res,
 			"a": a.view(ids), "b": b.view(ids), "c": c.view(ids)})
